@@ -124,7 +124,7 @@ Print Assumptions C20_literal_table_first_occurrence.
 
 (* ---------- non-vacuity ---------- *)
 
-(* a concrete module (errget; end) halts by itself; two different tick limits *)
+(* a concrete module (push0%; halt) halts by itself; two different tick limits *)
 Example C20_run_example :
   let m := mkModule [52; 100] [] [] 0 None in
   let s0 := init_state m (mkScript [] [] [] []) in
